@@ -454,7 +454,13 @@ def gen_profiler(rng, tier, index):
         if kind < 0.6:
             pulses.append(['tone', int(rng.choice((600, 855, 1100, 1710, 2168, 2500)) * rng.uniform(0.9, 1.1)), rng.randrange(20, 120)])
         else:
-            pulses.append(['seq', [int(rng.choice((300, 667, 735, 855, 1710, 2168, 4000, 9000 if rng.random() < 0.3 else 1500)) * rng.uniform(0.9, 1.1)) for _ in range(rng.randrange(2, 12))]])
+            # some pulses outlast the sampling loop's time-out (counter x loop time = 5000-13000 T): the loop gives up while
+            # an accelerator may still be fast-forwarding it
+            pulses.append(['seq', [int(rng.choice((300, 667, 735, 855, 1710, 2168, 4000, 1500, rng.choice((9000, 14000, 20000, 40000)) if rng.random() < 0.5 else 1500)) * rng.uniform(0.9, 1.1)) for _ in range(rng.randrange(2, 12))]])
+    if not inc or rng.random() < 0.3:
+        # at least one pulse that outlasts the time-out (always for the two decrementing-counter loop shapes, which appear
+        # only once or twice in a quick batch)
+        pulses.insert(rng.randrange(0, len(pulses) + 1), ['seq', [int(rng.choice((855, 2168)) * rng.uniform(0.9, 1.1)), rng.choice((9000, 14000, 20000, 40000, 60000)), int(rng.choice((855, 2168)) * rng.uniform(0.9, 1.1)), rng.choice((12000, 30000))]])
     scn = {
         'source': 'profiler', 'family': fam, 'names': PROFILES[fam], 'lbase': rng.choice((0x8000, 0x9000, 0xC000, 0xE000, rng.randrange(0x8000, 0xF000) & 0xFFF0)),
         'r0': rng.choice((0x22, 0x80, 0xFF, 0xA5, rng.randrange(256), rng.randrange(128, 256))), 'nsamples': nsamples, 'init': rng.randrange(1, 0x90) if inc else rng.randrange(0x70, 0x100), 'pulses': pulses, 'pause_ms': rng.choice((1000, 2000)),
